@@ -203,6 +203,9 @@ func (p *Prog) embeddedFile(pkgSuffix, varName string) (string, string, error) {
 							name := strings.TrimSpace(strings.TrimPrefix(c.Text, "//go:embed "))
 							dir := filepath.Dir(p.Fset.Position(f.Pos()).Filename)
 							path := filepath.Join(dir, name)
+							if ob, ok := p.Overlay[path]; ok {
+								return string(ob), path, nil
+							}
 							b, err := os.ReadFile(path)
 							if nil != err {
 								return "", path, err
